@@ -252,10 +252,26 @@ func genSlice(r *gen.R, validOnly bool) (mon.OpReq, Expect, bool) {
 
 func genGather(r *gen.R, validOnly bool) (mon.OpReq, Expect, bool) {
 	x := c08Data(r, 1, 4)
+	big := r.Chance(0.002)
+	if big { // a long axis (index values of 1000 and more)
+		x = r.Tensor(ref.I32, []int{r.Range(1026, 1040), 2}, gen.FillUnique, 0)
+		if r.Bool() {
+			x = r.Tensor(ref.I32, []int{2, r.Range(1026, 1040)}, gen.FillUnique, 0)
+		}
+	}
 	rank := x.Rank()
 	axis := r.Range(0, rank-1)
+	if big {
+		axis = 0
+		if x.Shape[1] > 2 {
+			axis = 1
+		}
+	}
 	d := x.Shape[axis]
 	ishape := r.Shape(0, 2, 3, 9)
+	if big && r.Chance(0.3) { // a long index list
+		ishape = []int{r.Range(1025, 1030)}
+	}
 	if r.Chance(0.12) { // "index tensors of any rank"
 		ishape = r.Shape(3, 4, 3, 16)
 	}
@@ -263,6 +279,9 @@ func genGather(r *gen.R, validOnly bool) (mon.OpReq, Expect, bool) {
 	idx := ref.New(idxDT, ishape...)
 	for i := range idx.Bits {
 		v := r.Range(0, d-1)
+		if big && r.Chance(0.7) {
+			v = r.Range(1020, minInt(1028, d-1))
+		}
 		if r.Chance(0.35) {
 			v -= d
 		}
